@@ -335,6 +335,6 @@ func init() {
 		Level:       "other",
 		Explanation: "Only the conservation-on-failure clause is decided: every quota allocation is released on every failing return or transferred to the returned file, whose Close releases files and bytes; allocated sectors are freed on every failing return of the allocating function; the size recorded after a growing write comes from the returned byte count. Byte-level sparse-file semantics, hole contents, bitmap arithmetic and exact conservation over histories are NOT decided by static analysis.",
 		Assumptions: []string{"quotaMetric.allocate/release and the bitmap allocator are correct in themselves"},
-		Rules:       []RuleFunc{c15Quota, c15Sectors, c15SizeFromCount, c15WriteSizeFromCount},
+		Rules:       []RuleFunc{c15Quota, c15Sectors, c15SizeFromCount, c15WriteSizeFromCount, c15PoolRules},
 	})
 }
